@@ -141,4 +141,30 @@ def sumL (l : List Int) : Int := l.foldl (· + ·) 0
 def Tbl.new (rows cols : Nat) : Tbl :=
   { rows := rows, cols := cols, F := fun _ _ => plain, P := fun _ _ => [[]] }
 
+/-! ### row heights / column widths and the frame size derived from them (`_Row.height`, `_Column.width`,
+      `Table.notify_height_changed / notify_width_changed`) -/
+
+/-- the row heights (column widths) and the frame's height (width) -/
+structure Sizes where
+  items : List Int
+  frame : Int
+deriving Repr, DecidableEq
+
+/-- `ST_Coordinate` (a:tr/@h, a:gridCol/@w) -/
+def coordOk (v : Int) : Bool := decide (-27273042329600 ≤ v ∧ v ≤ 27273042316900)
+/-- `ST_PositiveCoordinate` (the frame's a:ext) -/
+def posOk (v : Int) : Bool := decide (0 ≤ v ∧ v ≤ 27273042316900)
+
+/-- one assignment: the item is written, the frame becomes the sum; when the value or the sum cannot be written the call
+    is refused (`none`) and - the setter restores what it had written - nothing has changed -/
+def setItem (s : Sizes) (i : Nat) (v : Int) : Option Sizes :=
+  if i < s.items.length ∧ coordOk v = true then
+    let it := s.items.set i v
+    if posOk (sumL it) then some { items := it, frame := sumL it } else none
+  else none
+
+def stepSizes (s : Sizes) (op : Nat × Int) : Sizes := (setItem s op.1 op.2).getD s
+
+def runSizes (s : Sizes) (ops : List (Nat × Int)) : Sizes := ops.foldl stepSizes s
+
 end Pptx.Table
